@@ -16,8 +16,8 @@ import (
 // expressions, functions, exceptions) and of the class/closure generator in clsgen.go.
 func randomCases(e *lib.Env, off func(string) bool) []*pcase {
 	var out []*pcase
-	nGen := e.Pick(160, 2000)
-	nCls := e.Pick(120, 2000)
+	nGen := e.Pick(130, 2000)
+	nCls := e.Pick(100, 2000)
 	r := e.Rand("gen")
 	for i := 0; i < nGen; i++ {
 		exc := r.Intn(2) == 0
@@ -41,6 +41,11 @@ func randomCases(e *lib.Env, off func(string) bool) []*pcase {
 	for i := 0; i < e.Pick(60, 800); i++ {
 		src := genLiteralProgram(r3, i)
 		out = append(out, &pcase{Name: fmt.Sprintf("lit/%d", i), Family: "lit", Rel: fmt.Sprintf("lit/l%05d.php", i), Src: src, Features: append([]string{"literal"}, syntacticFeatures(src)...)})
+	}
+	r4 := e.Rand("nsr")
+	for i := 0; i < e.Pick(50, 600); i++ {
+		src := genNameResolutionProgram(r4, i)
+		out = append(out, &pcase{Name: fmt.Sprintf("nsr/%d", i), Family: "nsr", Rel: fmt.Sprintf("nsr/n%05d.php", i), Src: src, Features: append([]string{"name-resolution"}, syntacticFeatures(src)...)})
 	}
 	r2 := e.Rand("cls")
 	for i := 0; i < nCls; i++ {
